@@ -40,9 +40,11 @@ Definition chol_float : fmat -> fmat * nat := chol_kernel ArFloat.
 Definition fmax (a b : float) : float := if PrimFloat.ltb a b then b else a.
 Definition is_finite (x : float) : bool := PrimFloat.ltb (abs x) infinity.
 
-(* |a-b| <= tol * max(s, |a|, |b|) ; false if anything is NaN / infinite *)
+(* |a-b| <= tol * max(s, |a|, |b|) ; two NaNs agree; otherwise false if anything is NaN / infinite *)
+Definition is_nan (x : float) : bool := negb (PrimFloat.eqb x x).
 Definition close (tol s a b : float) : bool :=
-  is_finite a && is_finite b && PrimFloat.leb (abs (a - b)) (tol * fmax s (fmax (abs a) (abs b))).
+  (is_nan a && is_nan b) ||
+  (is_finite a && is_finite b && PrimFloat.leb (abs (a - b)) (tol * fmax s (fmax (abs a) (abs b)))).
 Definition close_abs (tol a b : float) : bool :=
   is_finite a && is_finite b && PrimFloat.leb (abs (a - b)) tol.
 
@@ -80,12 +82,14 @@ Record case := MkCase {
   c_upper : bool;
   c_jit : option float;
   c_mt : option Z;
-  (* tolerances chosen by the harness from dtype / scale *)
-  c_tolL : float; c_sL : float; c_tolinc : float; c_tolw : float;
+  (* tolerances chosen by the harness from dtype / scale / conditioning; one entry PER MEMBER for the
+     factor (relative tolerance, magnitude floor) and for the diagonal increments (absolute) *)
+  c_tolL : list float; c_sL : list float; c_tolinc : list float; c_tolw : float;
   (* observed on the implementation *)
   o_kind : nat;                (* 0 returned ; 1 NanError ; 2 NotPSDError ; 3 UnboundLocalError ; 4 anything else *)
-  o_warns : list float;        (* jitter values of the NumericalWarnings, in order *)
-  o_last : float;              (* jitter in the NotPSDError message (0 if none) *)
+  o_warns : list float;        (* jitter values of the NumericalWarnings, in order; a negative entry = the message
+                                  carried no readable number (only the count is then compared) *)
+  o_last : float;              (* jitter in the NotPSDError message (0 if none, negative if unreadable) *)
   o_L : list fmat;             (* returned factor, members in the same order *)
   o_inc : list (list float);   (* diag(F F^T - A) per member, F the returned factor made lower; float64, by the harness *)
   o_unchanged : bool           (* A bitwise identical and A._version unchanged after the call *)
@@ -94,7 +98,7 @@ Record case := MkCase {
 Definition run_model (c : case) : result float * list (list fmat) :=
   match c_api c with
   | O => psd_safe_cholesky ArFloat chol_float (c_st c) (c_d32 c) (c_dt c) (c_n c) [c_A c] O (c_upper c) (c_jit c) (c_mt c)
-  | _ => let '(r, A') := op_cholesky ArFloat chol_float (c_st c) (c_d32 c) (c_dt c) (c_n c) (c_A c) (c_upper c) in (r, [A'])
+  | _ => op_cholesky ArFloat chol_float (c_st c) (c_d32 c) (c_dt c) (c_n c) (c_A c) (c_upper c)
   end.
 
 (* increments the model added to each member's diagonal: diag(Aprime) - diag(A) (zero when no clone was made) *)
@@ -111,20 +115,26 @@ Definition trace_sel (c : case) : list bool :=
   then map (fun M => Nat.eqb (snd (chol_float M)) O) (c_A c)
   else map (fun _ => true) (c_A c).
 
-Fixpoint sel_close (tol s : float) (sel : list bool) (a b : list fmat) : bool :=
-  match sel, a, b with
-  | [], [], [] => true
-  | k :: sel', x :: a', y :: b' => (negb k || mat_close tol s x y) && sel_close tol s sel' a' b'
-  | _, _, _ => false
+Fixpoint sel_close (tol s : list float) (sel : list bool) (a b : list fmat) : bool :=
+  match tol, s, sel, a, b with
+  | [], [], [], [], [] => true
+  | t :: tol', m :: s', k :: sel', x :: a', y :: b' => (negb k || mat_close t m x y) && sel_close tol' s' sel' a' b'
+  | _, _, _, _, _ => false
   end.
-Fixpoint sel_inc (tol : float) (sel : list bool) (a b : list (list float)) : bool :=
-  match sel, a, b with
-  | [], [], [] => true
-  | k :: sel', x :: a', y :: b' => (negb k || all2 (close_abs tol) x y) && sel_inc tol sel' a' b'
-  | _, _, _ => false
+Fixpoint sel_inc (tol : list float) (sel : list bool) (a b : list (list float)) : bool :=
+  match tol, sel, a, b with
+  | [], [], [], [] => true
+  | t :: tol', k :: sel', x :: a', y :: b' => (negb k || all2 (close_abs t) x y) && sel_inc tol' sel' a' b'
+  | _, _, _, _ => false
   end.
 
-Definition warns_close (c : case) := all2 (close (c_tolw c) 0).
+(* model value vs the number read from the message *)
+Definition wclose (tol m o : float) : bool := PrimFloat.ltb o 0 || close tol 0 m o.
+(* the 1 x 1 shortcut of LinearOperator._cholesky clamps instead of adding jitter: diag(F F^T - A) is then not a
+   jitter increment and is not compared (the factor itself is) *)
+Definition scalar_shortcut (c : case) : bool := negb (Nat.eqb (c_api c) O) && Nat.eqb (c_n c) 1.
+
+Definition warns_close (c : case) := all2 (wclose (c_tolw c)).
 
 (* reason code: 0 agree; 1 outcome kind; 2 warnings; 3 factor values; 4 diagonal increments;
    5 input modified; 6 jitter in the error message *)
@@ -137,13 +147,13 @@ Definition compare (c : case) : nat :=
       if negb (Nat.eqb (o_kind c) 0) then 1
       else if negb (warns_close c w (o_warns c)) then 2
       else if negb (sel_close (c_tolL c) (c_sL c) (trace_sel c) L (o_L c)) then 3
-      else if negb (sel_inc (c_tolinc c) (trace_sel c) (model_inc c h) (o_inc c)) then 4
+      else if negb (scalar_shortcut c || sel_inc (c_tolinc c) (trace_sel c) (model_inc c h) (o_inc c)) then 4
       else 0
   | ErrNan => if Nat.eqb (o_kind c) 1 then (if warns_close c [] (o_warns c) then 0 else 2) else 1
   | ErrNotPSD w last =>
       if negb (Nat.eqb (o_kind c) 2) then 1
       else if negb (warns_close c w (o_warns c)) then 2
-      else if negb (close (c_tolw c) 0 last (o_last c)) then 6 else 0
+      else if negb (wclose (c_tolw c) last (o_last c)) then 6 else 0
   | ErrUnbound =>
       (* transcribed: UnboundLocalError (max_tries <= 0).  A repaired tree raising NotPSDError there
          is accepted as well (DESIGN 2.5 iii); the direct predicate reports the unrepaired behaviour *)
